@@ -31,5 +31,6 @@ extern struct kv_op kv_ops_sys[];
 extern struct kv_op kv_ops_misc[];
 extern struct kv_op kv_ops_ref[];
 extern struct kv_op kv_ops_kmeans[];
+extern struct kv_op kv_ops_pipe[];
 
 #endif
